@@ -98,7 +98,7 @@ func seed(w *hub.World, keys [][]byte) bool {
 // recover expired leftovers: the clock passes every TTL, a fresh client reads all keys (lock resolution by a reader), then
 // either GC-style batch resolution or a pessimistic locker pass removes what readers ignore (pessimistic locks).
 func recoverAndAudit(w *hub.World, keys [][]byte, r *vx.Rand, how int, victims ...*hub.Client) bool {
-	w.AdvanceClock(60000)
+	w.AdvanceClock(recoveryAdvanceMs())
 	rd := w.NewClient("r")
 	ok := runAll(w, scenarioTimeout, func() {
 		rd.Begin(false, "2pc")
@@ -147,7 +147,7 @@ func subset(r *vx.Rand, keys [][]byte, p int) [][]byte {
 	return out
 }
 
-var modes = []string{"2pc", "async", "1pc"}
+var modes = []string{"2pc", "async", "1pc", "both"}
 
 var regionErrClasses = []string{"NotLeader", "EpochNotMatch", "ServerIsBusy", "StaleCommand"}
 
@@ -161,4 +161,13 @@ func idempotentKind(kind, cmd string) bool {
 		return true
 	}
 	return false
+}
+
+// recoveryAdvanceMs: how far the clock moves before a recovery pass — past every lock ttl.  A pessimistic async-commit
+// transaction prewrites with a ttl that covers its max_commit_ts: with the safe window widened to 48 h that is two days.
+func recoveryAdvanceMs() int64 {
+	if restoreSafeWindow != nil {
+		return 49 * 3600 * 1000
+	}
+	return 60000
 }
